@@ -14,6 +14,7 @@ import (
 	"github.com/xuperchain/xupercore/kernel/consensus/base"
 	bcommon "github.com/xuperchain/xupercore/kernel/consensus/base/common"
 	bft "github.com/xuperchain/xupercore/kernel/consensus/base/driver/chained-bft"
+	bftpb "github.com/xuperchain/xupercore/kernel/consensus/base/driver/chained-bft/pb"
 	cctx "github.com/xuperchain/xupercore/kernel/consensus/context"
 	"github.com/xuperchain/xupercore/kernel/consensus/def"
 	"github.com/xuperchain/xupercore/kernel/contract"
@@ -23,6 +24,7 @@ import (
 	"github.com/xuperchain/xupercore/lib/timer"
 	"github.com/xuperchain/xupercore/protos"
 
+	"verif/core"
 	"verif/world"
 )
 
@@ -160,14 +162,120 @@ func newBcs(name string, n int) (*bcsDriver, error) {
 // check wraps the signature list as the justify of a block at height 2
 // proposed by the collector V1 in its own slot and asks CheckMinerMatch.
 func (d *bcsDriver) check(es []*entry) (bool, error) {
-	just, err := bcommon.NewToOldQC(&bft.QuorumCert{VoteInfo: &bft.VoteInfo{ProposalId: idCert, ProposalView: 1, ParentId: idRoot, ParentView: 0}, SignInfos: signsOf(es)})
+	return d.checkBlock(idProp, idCert, signsOf(es))
+}
+
+// checkBlock asks CheckMinerMatch about the block `blockid` at height 2 on top
+// of idCert whose justify certifies `certified` (a block of height 1) with the
+// given signatures.
+func (d *bcsDriver) checkBlock(blockid, certified []byte, signs []*bftpb.QuorumCertSign) (bool, error) {
+	just, err := bcommon.NewToOldQC(&bft.QuorumCert{VoteInfo: &bft.VoteInfo{ProposalId: certified, ProposalView: 1, ParentId: idRoot, ParentView: 0}, SignInfos: signs})
 	if err != nil {
 		return false, err
 	}
-	blk := &lpb.InternalBlock{Version: 1, Blockid: idProp, PreHash: idCert, Height: 2, Proposer: []byte(world.Addr(collector)), Timestamp: d.ts, CurTerm: 1, CurBlockNum: 1, Justify: just}
+	blk := &lpb.InternalBlock{Version: 1, Blockid: blockid, PreHash: idCert, Height: 2, Proposer: []byte(world.Addr(collector)), Timestamp: d.ts, CurTerm: 1, CurBlockNum: 1, Justify: just}
 	ctx := &xcontext.BaseCtx{XLog: world.NopLogger{}, Timer: timer.NewXTimer()}
 	ok, _ := d.cons.CheckMinerMatch(ctx, state.NewBlockAgent(world.WireBlock(blk)))
 	return ok, nil
+}
+
+// bcsHistory is the honest traffic a tdpos / xpoa instance is shown before the
+// cases (the block seam has no entry for single votes): a block justified by
+// the honest certificate for the OTHER id (every member's signature over it,
+// the very entries the cases re-use as Vi:otherid), and the block justified by
+// the honest certificate for the certified id.
+var bcsHistory = []string{"cert:other", "cert:cert"}
+
+// prime presents the honest blocks of a history; returns accepted / refused.
+func (d *bcsDriver) prime(steps []string) (accepted, refused int) {
+	for _, st := range steps {
+		var ok bool
+		var err error
+		switch st {
+		case "cert:other":
+			var toks []string
+			for i := 2; i <= d.n; i++ {
+				toks = append(toks, vname(i)+":otherid")
+			}
+			toks = append(toks, collector+":otherid")
+			ok, err = d.checkBlock(idNext, idProp, signsOf(mustEntries(toks)))
+		case "cert:cert":
+			toks := []string{collector}
+			for i := 2; i <= d.n; i++ {
+				toks = append(toks, vname(i))
+			}
+			ok, err = d.check(mustEntries(toks))
+		default:
+			err = fmt.Errorf("unknown history step %q", st)
+		}
+		if err != nil {
+			core.HarnessError("C14: %s fixture: %v", d.name, err)
+		}
+		if ok {
+			accepted++
+		} else {
+			refused++
+		}
+	}
+	return
+}
+
+// replayBcs is the replayable form of a block-seam case with a past: a fresh
+// instance, the honest blocks, the earlier certificates, the case. The caller
+// stops the instance (not at once: the constructor starts the smr in a
+// goroutine of its own, which must have registered before Stop unregisters).
+func replayBcs(name string, n int, steps []string, earlier [][]string, es []*entry) (*bcsDriver, bool, error) {
+	d, err := newBcs(name, n)
+	if err != nil {
+		return nil, false, err
+	}
+	d.prime(steps)
+	for _, e := range earlier {
+		if _, err := d.check(mustEntries(e)); err != nil {
+			return d, false, err
+		}
+	}
+	ok, err := d.check(es)
+	return d, ok, err
+}
+
+// explainBcs looks, on fresh instances, for the smallest past that reproduces a
+// below-quorum acceptance of a long-lived tdpos / xpoa instance: nothing, the
+// honest blocks, the earlier certificates, both. The returned driver is the
+// instance that reproduced it; every instance made is appended to pool, for the
+// caller to stop.
+func explainBcs(name string, n int, toks []string, seen [][]string, pool *[]*bcsDriver) (c Case, d *bcsDriver, need string) {
+	es := mustEntries(toks)
+	c = Case{Seam: name + ".CheckMinerMatch", N: n, Collector: collector, Entries: toks}
+	try := func(steps []string, earlier [][]string) bool {
+		drv, ok, err := replayBcs(name, n, steps, earlier, es)
+		if drv != nil {
+			*pool = append(*pool, drv)
+		}
+		if err != nil {
+			core.HarnessError("C14: %s fixture: %v", name, err)
+		}
+		if ok {
+			d = drv
+		}
+		return ok
+	}
+	if try(nil, nil) {
+		return c, d, "nothing"
+	}
+	if try(bcsHistory, nil) {
+		c.History = bcsHistory
+		return c, d, "history"
+	}
+	for _, steps := range [][]string{nil, bcsHistory} {
+		if try(steps, seen) {
+			c.History = steps
+			c.Earlier = append([][]string{}, seen...)
+			c.EarlierTimes = 1
+			return c, d, "earlier"
+		}
+	}
+	return c, nil, ""
 }
 
 // fullVotes is the certificate signed by every validator but the collector.
